@@ -27,7 +27,7 @@ N = {'quick': 6000, 'thorough': 300000}
 ASSUMPTIONS = ['sh_entsize / DT_RELENT / DT_RELAENT / DT_RELRENT equal the entry size, table sizes are whole multiples of it; table addresses are non-zero and mapped by exactly one PT_LOAD',
                'RELR address entries are even (not necessarily word aligned) and small enough that no decoded address exceeds 2^class; a stream never starts with a bitmap',
                'relocatable objects: sh_addr = 0 (P = r_offset), symbols are not STT_FUNC (no Thumb/descriptor adjustments), S = st_value, fields lie inside the section and do not overlap except LoongArch ADDn/SUBn pairs of equal width on one field',
-               'only the machine classes of A.5 (x86/ARM/MIPS-o32 ELF32, the others ELF64; no x32/ILP32/n32/LA32); both byte orders for every machine because the library is byte-order generic',
+               'the machine classes of A.5 (x86/ARM/MIPS-o32 ELF32, the others ELF64) plus ELFCLASS32 containers of x86-64 (x32), MIPS RELA (n32) and LoongArch (LA32); not AArch64 ILP32 (its own type numbers); both byte orders for every machine because the library is byte-order generic',
                'R_ARM_CALL, MIPS-RELA R_MIPS_NONE and BPF are neither required nor forbidden by the property and are not generated; an n64 composite counts only when r_type2 or r_type3 is non-zero',
                'a *_NONE relocation touches no byte, so it may sit anywhere in the section, also in its last bytes (generated only in dedicated cases, bucket apply|none-near-end)']
 
@@ -931,7 +931,7 @@ def gen_apply(ch, tier, mk=None, le=None, neg='auto'):
         neg = None
     if neg == 'none_end' and not any(w == 0 for w, _ in spec['types'].values()):
         neg = None
-    if neg == 'flavour' and mk in ('mips_rel', 'mips_rela'):
+    if neg == 'flavour' and mk in ('mips_rel', 'mips_rela', 'mips_rela_n32'):
         neg = None          # MIPS has both flavours
     rela = spec['rela']
     nsyms = ch.int(1, 6)
@@ -1136,7 +1136,7 @@ def sweep_apply():
                 good['sub'] = [0, 0, 0]
             for bt in bad_types(mk, cls, mips64)[:8] + bad_types(mk, cls, mips64)[-2:]:
                 cases.append(_apply_case(mk, le, base, [dict(good, off=16), dict(good, type=bt)], [0, 0x100]))
-            if mk not in ('mips_rel', 'mips_rela'):
+            if mk not in ('mips_rel', 'mips_rela', 'mips_rela_n32'):
                 for t in sorted(spec['types']):
                     if spec['types'][t][0]:
                         cases.append(_apply_case(mk, le, base, [dict(good, type=t, addend=0 if rela else 5)], [0, 0x100], rela=not rela))
